@@ -354,6 +354,45 @@ func runSqueeze(pair string) *vstat.Violation {
 				return vstat.V("inmem:cas-resurrected", "CasByVersion and Delete forced to overlap: both succeeded and the record exists afterwards")
 			}
 		}
+	case "wait-expiring":
+		// a waiter registers on a record a moment before its expiry and is kept off the processor (GOMAXPROCS(1), the mutex handed
+		// over to a goroutine that spins while holding it) until the expiry has passed; it then computes a non-positive time to
+		// the expiry. It must end with ErrNotExist (or nil) and leave nothing in the waiter table.
+		old := runtime.GOMAXPROCS(1)
+		defer runtime.GOMAXPROCS(old)
+		e := time.Now().Add(25 * time.Millisecond)
+		r0, _ := st.Put(ctx, kvs.Record{Key: "k", Value: []byte("0"), ExpiresAt: &e})
+		wctx, cancel := context.WithTimeout(ctx, 5*time.Second)
+		defer cancel()
+		done := make(chan error, 1)
+		time.Sleep(time.Until(e.Add(-8 * time.Millisecond)))
+		spun := make(chan struct{})
+		lock(func() {
+			go func() { done <- st.WaitForVersionChange(wctx, "k", r0.Version) }()
+			time.Sleep(1500 * time.Microsecond)
+			go func() {
+				lock(func() {
+					for time.Now().Before(e.Add(2 * time.Millisecond)) {
+					}
+				})
+				close(spun)
+			}()
+			time.Sleep(time.Until(e.Add(-2500 * time.Microsecond)))
+		})
+		var werr error
+		select {
+		case werr = <-done:
+		case <-time.After(6 * time.Second):
+			return vstat.V("inmem:wait-not-woken", "a waiter registered just before the expiry of its record is still blocked 6 s later")
+		}
+		<-spun
+		if werr != nil && !gerrors.Is(werr, gerrors.ErrNotExist) {
+			return vstat.V("inmem:wait-result", "a waiter registered just before the expiry of its record returned %v, want ErrNotExist", werr)
+		}
+		time.Sleep(time.Millisecond)
+		if en, n, ok := waiterTable(st); ok && (en != 0 || n != 0) {
+			return vstat.V("inmem:waiter-table-residue", "a waiter registered just before the expiry of its record has returned (%v) but the waiter table still has %d entries / %d waiters", werr, en, n)
+		}
 	case "waitexpire-put":
 		// a waiter is parked on a record whose expiry passes while the storage mutex is held by the harness, with a Put queued on
 		// the mutex BEFORE the waiter's expiry timer fires: the Put is applied first, then the waiter's expiry handling runs.
@@ -500,4 +539,6 @@ func TestC02Squeeze(t *testing.T) {
 	testSqueeze(t, "C02", append(append([]string{}, squeezePairs[:5]...), "waitexpire-put", "expired-get-put", "expired-getmany-put"))
 }
 func TestC06Squeeze(t *testing.T) { testSqueeze(t, "C06", expiredPairs) }
-func TestC07Squeeze(t *testing.T) { testSqueeze(t, "C07", squeezePairs[5:]) }
+func TestC07Squeeze(t *testing.T) {
+	testSqueeze(t, "C07", append(append([]string{}, squeezePairs[5:]...), "wait-expiring", "waitexpire-put"))
+}
